@@ -8,6 +8,7 @@ use std::collections::BTreeMap;
 use core::str::FromStr;
 use std::result;
 use std::num::TryFromIntError;
+use vstd::std_specs::iter::IteratorSpec;
 
 verus! {
 
